@@ -101,13 +101,13 @@ def run(ctx):
   q = ctx.quick
   s = ctx.seed + 1
   designers = ['random', 'quasi_random', 'shuffled_grid', 'eagle', 'nsga2', 'cmaes']
-  spaces = [('d01', 'c5'), ('dlog', 'i015'), ('d-55', 'd01'), ('d01', 'c5', 'x2')]
+  spaces = [('d01', 'c5'), ('dlog', 'i015'), ('d-55', 'd01'), ('d01', 'c5', 'x2'), ('x3d', 'd01')]
   jobs = []
   for name in designers:
     for sp in spaces:
       if name == 'cmaes' and sp != ('d-55', 'd01'):
         continue
-      if sp == ('d01', 'c5', 'x2') and name not in ('eagle', 'nsga2', 'random'):
+      if sp in (('d01', 'c5', 'x2'), ('x3d', 'd01')) and name not in ('eagle', 'nsga2', 'random'):
         continue
       for seed in (s, s + 1):
         jobs.append([name, list(sp), seed])
